@@ -16,9 +16,25 @@
       output:  `n <events>` then per event `x y tx ty distance a…`; `fuel` appended if the model's
                loop bound was hit.  `nattr = 0`: `walk_along_path`; `nattr > 0`: the same loop over
                `PathWalker::with_attributes`.
+
+  HISTORIES (optional trailing arguments, every family):
+  `H <k> <step>{k} <entry> <sattr>`   the life of the ONE `PathMeasurements` object the case measures
+      with.  step = `<entry> <tol> <nattr> <sattr> <normalized> <ncmds> <cmds…> <nq> <queries…>`: the
+      object is (re-)initialised with that path through `entry` and a sampler (with attributes iff
+      `sattr`) runs the queries; output per step `h len … alen … edges … <query outputs>`.  Then the
+      case's own path is measured on the SAME object through the final `entry`
+      (`fp|fs|fi|ei|ep|es`: from_path, from_path_slice, from_iter, empty()+initialize,
+      empty()+initialize_with_path, empty()+initialize_with_path_slice — a new object;
+      `in|ip|is`: initialize, initialize_with_path, initialize_with_path_slice on the used one).
+      The model runs `PM.initialize` on the used object (`Model/Algo/MeasureInit.lean`).
+      sampler families: the steps' output comes first; walk families: after the events, followed by
+      `mlen <length>` (the measured length of the walked path on the recycled object).
+  `P <start> <cap> <ncmds> <cmds…>`   (walk families, before `H`) an earlier walk along another path
+      with the SAME pattern object (`RepeatedPattern::index` survives); output `pre <events>` first.
 -/
 import LyonVerif.Drive.Common
 import LyonVerif.Model.Algo.Measure
+import LyonVerif.Model.Algo.MeasureInit
 import LyonVerif.Model.Algo.Walk
 
 namespace Lyon.Drive.C19
@@ -56,6 +72,11 @@ def rdQueries (v : Array String) : Nat → Nat → List (Query α)
     | "S" => .sample (rd v (i+1)) :: rdQueries v n (i + 2)
     | _ => .split (rd v (i+1)) (rd v (i+2)) :: rdQueries v n (i + 3)
 
+/-- index after `n` queries starting at token `i` -/
+def skipQueries (v : Array String) : Nat → Nat → Nat
+  | 0, i => i
+  | n+1, i => if v.getD i "" == "S" then skipQueries v n (i + 2) else skipQueries v n (i + 3)
+
 def fList (l : List α) : List String := l.map fx
 
 def fCall : Measure.Call α → List String
@@ -71,6 +92,69 @@ def fOutput : Output α → List String
   | .split (.ok calls) => ["R", toString calls.length] ++ (calls.map fCall).flatten
   | .split .panic => ["R", "panic"]
 
+/-! ### the life of one `PathMeasurements` object -/
+
+/-- one phase: (re-)initialise through `entry`, then one sampler runs `qs` -/
+structure Phase (α : Type) where
+  entry : String
+  tol : α
+  nattr : Nat
+  sattr : Bool
+  normalized : Bool
+  cmds : List (Cmd α)
+  qs : List (Query α)
+
+def rdPhase (v : Array String) (i : Nat) : Phase α × Nat :=
+  let nattr := rdNat v (i + 2)
+  let ncmds := rdNat v (i + 5)
+  let (cmds, j) := rdCmds (α := α) v nattr ncmds (i + 6)
+  let nq := rdNat v j
+  (⟨v.getD i "", rd v (i + 1), nattr, v.getD (i + 3) "0" == "1", v.getD (i + 4) "0" == "1", cmds,
+    rdQueries v nq (j + 1)⟩, skipQueries v nq (j + 1))
+
+def rdPhases (v : Array String) : Nat → Nat → List (Phase α) × Nat
+  | 0, i => ([], i)
+  | n+1, i =>
+    let (p, j) := rdPhase (α := α) v i
+    let r := rdPhases v n j
+    (p :: r.1, r.2)
+
+/-- `H <k> <step>{k} <entry> <sattr>` at token `i`, or no history: a fresh `from_path` object and a
+sampler with attributes -/
+def rdHistory (v : Array String) (i : Nat) : List (Phase α) × String × Bool :=
+  if v.getD i "" == "H" then
+    let (ps, j) := rdPhases (α := α) v (rdNat v (i + 1)) (i + 2)
+    (ps, v.getD j "fp", v.getD (j + 1) "1" == "1")
+  else ([], "fp", true)
+
+/-- constructors (`from_*`, or `empty()` followed by an `initialize*`): a NEW object -/
+def isCtor (e : String) : Bool :=
+  e == "fp" || e == "fs" || e == "fi" || e == "ei" || e == "ep" || e == "es"
+
+/-- the object after `entry` (every entry point ends in `initialize(path.id_iter(), &path, tol)`) -/
+def obtain (pm : PM α) (entry : String) (tol : α) (cmds : List (Cmd α)) : PM α :=
+  if isCtor entry then PM.fromPath tol cmds else pm.initializeWithPath tol cmds
+
+/-- `len … alen … edges …` + the outputs of a query sequence on one sampler of `pm`; and whether
+the sequence ended in a panic -/
+def phaseOut (pm : PM α) (tol : α) (nattr : Nat) (sattr normalized : Bool) (qs : List (Query α)) :
+    List String × Bool :=
+  let m : M α := pm.sampler nattr sattr
+  let outs := Measure.run m normalized 0 qs
+  (["len", fx (Measure.length m.edges), "alen", fx (approxLength tol pm.events),
+    "edges", toString m.edges.length] ++ (outs.map fOutput).flatten, outs.any Output.isPanic)
+
+/-- run the history phases on one object: output, the object afterwards, panicked -/
+def runPhases : PM α → List (Phase α) → List String × PM α × Bool
+  | pm, [] => ([], pm, false)
+  | pm, p :: r =>
+    let pm1 := obtain pm p.entry p.tol p.cmds
+    let (o, pan) := phaseOut pm1 p.tol p.nattr p.sattr p.normalized p.qs
+    if pan then ("h" :: o, pm1, true)
+    else
+      let rest := runPhases pm1 r
+      ("h" :: o ++ rest.1, rest.2.1, rest.2.2)
+
 /-- `o` = offset of the common arguments (1 for `curved`, whose first argument is the tolerance) -/
 def samplerAt (curved : Bool) (v : Array String) : String :=
   let o := if curved then 1 else 0
@@ -81,10 +165,12 @@ def samplerAt (curved : Bool) (v : Array String) : String :=
   let (cmds, i) := rdCmds (α := α) v nattr ncmds (o + 3)
   let nq := rdNat v i
   let qs : List (Query α) := rdQueries v nq (i + 1)
-  let m : M α := Measure.mk nattr tol cmds
-  let outs := Measure.run m normalized 0 qs
-  unwords (["len", fx (Measure.length m.edges), "alen", fx (approxLength tol m.evs),
-            "edges", toString m.edges.length] ++ (outs.map fOutput).flatten)
+  let (phases, entry, sattr) := rdHistory (α := α) v (skipQueries v nq (i + 1))
+  let (ho, pm0, pan) := runPhases PM.empty phases
+  if pan then unwords ho
+  else
+    let pm := obtain pm0 entry tol cmds
+    unwords (ho ++ (phaseOut pm tol nattr sattr normalized qs).1)
 
 def sampler (v : Array String) : String := samplerAt (α := α) false v
 def curved (v : Array String) : String := samplerAt (α := α) true v
@@ -110,11 +196,29 @@ def walkAt (curved : Bool) (v : Array String) : String :=
     if v.getD (o + 3) "" == "reg" then (Walk.regular (rd v (o + 4)) cap, o + 5)
     else (Walk.repeated (rdList v (o + 6) (rdNat v (o + 5))) (rdNat v (o + 4)) cap, o + 6 + rdNat v (o + 5))
   let ncmds := rdNat v i
-  let (cmds, _) := rdCmds (α := α) v nattr ncmds (i + 1)
-  let (evs, fuelOut) := Walk.walk pat walkFuel nattr tol start (cmds.map toPEv)
-  unwords (["n", toString evs.length]
+  let (cmds, j) := rdCmds (α := α) v nattr ncmds (i + 1)
+  -- an earlier walk with the same pattern object: `RepeatedPattern::index` has advanced by the
+  -- number of callbacks that returned `true` (the callback's own counter starts again)
+  let hasPre := v.getD j "" == "P"
+  let (pre, j2) : List (Cmd α) × Nat :=
+    if hasPre then rdCmds (α := α) v nattr (rdNat v (j + 3)) (j + 4) else ([], j)
+  let cap0 := rdNat v (j + 2)
+  let pat0 : Walk.Pat α :=
+    if v.getD (o + 3) "" == "reg" then Walk.regular (rd v (o + 4)) cap0
+    else Walk.repeated (rdList v (o + 6) (rdNat v (o + 5))) (rdNat v (o + 4)) cap0
+  let (evs0, fuel0) := Walk.walk pat0 walkFuel nattr tol (rd v (j + 1)) (pre.map toPEv)
+  let pat1 : Walk.Pat α :=
+    if !hasPre || v.getD (o + 3) "" == "reg" then pat
+    else Walk.repeated (rdList v (o + 6) (rdNat v (o + 5))) (rdNat v (o + 4) + min evs0.length cap0) cap
+  let (evs, fuelOut) := Walk.walk pat1 walkFuel nattr tol start (cmds.map toPEv)
+  let hasHist := v.getD j2 "" == "H"
+  let (phases, entry, _) := rdHistory (α := α) v j2
+  let (ho, pm0, pan) := runPhases PM.empty phases
+  unwords ((if hasPre then ["pre", toString evs0.length] ++ (if fuel0 then ["fuel"] else []) else [])
+    ++ ["n", toString evs.length]
     ++ (evs.map (fun e => [fp e.position, fp e.tangent, fx e.distance] ++ fList e.attributes)).flatten
-    ++ (if fuelOut then ["fuel"] else []))
+    ++ (if fuelOut then ["fuel"] else [])
+    ++ (if hasHist then ho ++ (if pan then [] else ["mlen", fx (obtain pm0 entry tol cmds).length]) else []))
 
 def walk (v : Array String) : String := walkAt (α := α) false v
 def curvedWalk (v : Array String) : String := walkAt (α := α) true v
